@@ -531,6 +531,7 @@ pub fn run(case: &str, ctx: &mut Ctx) -> String {
         Some("pager") => pager::run(case, ctx),
         Some("bindrow") => run_bindrow(case, ctx),
         Some("batch") => run_batch(case, ctx),
+        Some("sbatch") | Some("squery") => sessbind::run(case, ctx),
         Some("frame") if hd.len() == 2 => run_frame(hd[1], ctx),
         Some("rows") if segs.len() == 4 && hd.len() == 2 => {
             let toks: Vec<&str> = segs[2].split_whitespace().collect();
